@@ -239,8 +239,13 @@ def one_class(chk, F, cn, info):
             for n in walk.walk_body(b):
                 if n.get("k") == "field" and is_self0(n["a"]):
                     fields.append(n["name"])
+                elif n.get("k") == "field" and n.get("name") == "0" and is_self0(n):
+                    fields.append("self.0")
             chk.count("getters")
-            chk.ob("getter|%s|%s" % (cn, nm), bool(fields), "getter reads parts of self.0", body_loc(F, b), found=fields, nontrivial=False)
+            if fields:
+                chk.ob("getter|%s|%s" % (cn, nm), True, "getter reads parts of self.0", body_loc(F, b), found=sorted(set(fields)), nontrivial=False)
+            else:
+                chk.undecide("getter|%s|%s" % (cn, nm), "unsupported: getter does not read self.0 directly", body_loc(F, b))
 
 
 def is_dual_vector(F, ti):
@@ -383,8 +388,11 @@ def drivers(chk, F, classes):
         # (c) matrices are converted by rows
         its = {n["m"] for n in walk.walk_body(b) if n.get("k") == "mcall" and n["m"] in ("row_iter", "column_iter")}
         if name in ("jacobian", "hessian", "partial_hessian"):
-            chk.ob("driver|%s|rows" % name, its == {"row_iter"}, "matrix results are converted row by row (no transposition)", body_loc(F, b),
-                   found=sorted(its), required=["row_iter"], nontrivial=False)
+            if not its:
+                chk.undecide("driver|%s|rows" % name, "unsupported: the matrix result is not converted with row_iter / column_iter here", body_loc(F, b))
+            else:
+                chk.ob("driver|%s|rows" % name, its == {"row_iter"}, "matrix results are converted row by row (no transposition)", body_loc(F, b),
+                       found=sorted(its), required=["row_iter"], nontrivial=False)
 
 
 def registration(chk, F, classes):
